@@ -6,8 +6,8 @@
    association lists field -> value.  "chunk invariant" is always the full
    statement  forall bs, run c bs = run c [concat bs]  (any batching of the same
    row sequence, including empty batches, equals the single-batch run). *)
-From SigM Require Import Base Pipe.
-From SigP Require Import BaseProofs PipeProofs PipeRewindProofs PipeMergeProofs.
+From SigM Require Import Base Pipe PipeCols.
+From SigP Require Import BaseProofs PipeProofs PipeRewindProofs PipeMergeProofs PipeColsProofs.
 From Coq Require Import Permutation.
 Open Scope N_scope.
 
@@ -574,3 +574,99 @@ Example C06_rewind_keeping_leftover_unnoticed_when_drained :
                  [RStage (head_proc 6) streaming_flags; RStage (twopass_proc fill0) twopass_flags])
   = Some [rk 1; rk 2; rk 3; rk 4; rk 5; rk 6].
 Proof. exact rewind_keeping_leftover_unnoticed_when_drained. Qed.
+
+(* ---- per-record commands that WRITE columns, handled batch by batch (PipeCols.v) ----
+   rex / eval read columns of the IQR, build the new columns and replace them with
+   IQR.AppendKnownValues once per Process() call.  [batch_cmd F] is a stateless processor whose
+   Process() is F. *)
+
+(* a stateless per-batch processor gives the same rows for every batching EXACTLY when what it does
+   to a batch is what it does to each record alone, concatenated (no decision may depend on the other
+   records of the batch); this is the harness oracle <cmd>_record_depends_on_its_batch *)
+Theorem C06_stateless_processor_chunk_invariant_iff_recordwise : forall F : batch -> batch,
+  (forall bs, run (batch_cmd F) bs = run (batch_cmd F) [concat bs])
+  <-> (forall b, F b = flat_map (fun r => F [r]) b).
+Proof. exact batch_cmd_chunk_inv_iff. Qed.
+Print Assumptions C06_stateless_processor_chunk_invariant_iff_recordwise.
+
+(* a per-batch shortcut (batches with [q] are handled by G instead of F) keeps the meaning as far as
+   G agrees with the record function on those batches *)
+Theorem C06_batch_shortcut_sound : forall q F G (f : row -> list row),
+  (forall b, F b = flat_map f b) -> (forall b, q b = true -> G b = flat_map f b) ->
+  forall bs, run (batch_cmd (shortcut q F G)) bs = flat_map f (concat bs).
+Proof. exact shortcut_sound. Qed.
+Print Assumptions C06_batch_shortcut_sound.
+
+(* rexcommand.go Process() (columns read, built, written) = the record function on every record, for
+   any extraction function (Go regexp + GetValueAsString), source field and group names - including
+   groups named after existing columns or after the source field *)
+Theorem C06_rex_process_is_recordwise : forall ext src groups b,
+  rex_batch ext false src groups b = map (rex_row ext src groups) b.
+Proof. exact rex_batch_rowwise. Qed.
+Print Assumptions C06_rex_process_is_recordwise.
+
+Theorem C06_rex_meets_spec : forall ext src groups bs,
+  run (rex_cmd false src groups ext) bs = map (rex_row ext src groups) (concat bs).
+Proof. exact rex_spec. Qed.
+Print Assumptions C06_rex_meets_spec.
+
+Theorem C06_rex_chunk_invariant : forall ext src groups bs,
+  run (rex_cmd false src groups ext) bs = run (rex_cmd false src groups ext) [concat bs].
+Proof. exact rex_chunk_inv. Qed.
+Print Assumptions C06_rex_chunk_invariant.
+
+(* what a record gets: no match -> every capture-group column is null, also one that existed before,
+   all other columns untouched; match -> group i holds captured text i *)
+Theorem C06_rex_record_without_match : forall ext src groups r, ext (get r src) = None ->
+  forall f, get (rex_row ext src groups r) f
+            = if existsb (fun g => field_eqb g f) groups then VNull else get r f.
+Proof. exact rex_row_no_match. Qed.
+Print Assumptions C06_rex_record_without_match.
+
+Theorem C06_rex_record_with_match : forall ext src groups r vs, ext (get r src) = Some vs -> NoDup groups ->
+  forall i g, nth_error groups i = Some g -> get (rex_row ext src groups r) g = nth i vs VNull.
+Proof. exact rex_row_match. Qed.
+Print Assumptions C06_rex_record_with_match.
+
+(* the shortcut "no record of this batch matched -> hand the IQR on untouched" ([rex_cmd true]):
+   full statement  forall ext src groups bs, run (rex_cmd true ..) bs = run (rex_cmd true ..) [concat bs]
+   is refuted: the capture group is the existing column a; "1" matches, "0" does not; the second record
+   keeps a = y when it is a batch of its own and gets null when it shares the batch with the first *)
+Theorem C06_rex_skip_batch_without_match_refuted :
+  exists ext src g bs,
+    map (fun r => get r g) (run (rex_cmd true src [g] ext) bs)
+    <> map (fun r => get r g) (run (rex_cmd true src [g] ext) [concat bs]).
+Proof. exact rex_skip_refuted. Qed.
+Print Assumptions C06_rex_skip_batch_without_match_refuted.
+
+Example C06_rex_skip_witness :
+  map (fun r => get r w_a) (run (rex_cmd false w_s [w_a] w_ext) [[w_r1]; [w_r2]]) = [VStr [49]; VNull]
+  /\ map (fun r => get r w_a) (run (rex_cmd true w_s [w_a] w_ext) [[w_r1]; [w_r2]]) = [VStr [49]; VStr [121]]
+  /\ map (fun r => get r w_a) (run (rex_cmd true w_s [w_a] w_ext) [[w_r1; w_r2]]) = [VStr [49]; VNull].
+Proof. exact rex_witness_code. Qed.
+
+(* ... and invisible under the exact circumstances of the processor's unit tests: when no input record
+   has a value in a capture-group column the shortcut returns rows with the same cells as the code *)
+Theorem C06_rex_skip_invisible_on_new_columns_guarded : forall ext src groups bs,
+  (forall r, In r (concat bs) -> forall g, In g groups -> get r g = VNull) ->
+  Forall2 row_equiv (run (rex_cmd true src groups ext) bs) (run (rex_cmd false src groups ext) bs).
+Proof. exact rex_skip_guarded. Qed.
+Print Assumptions C06_rex_skip_invisible_on_new_columns_guarded.
+
+Example C06_rex_skip_guard_satisfiable :
+  let bs := [[[(w_s, VStr [49])]]; [[(w_s, VStr [48])]]] in
+  (forall r, In r (concat bs) -> forall g, In g [w_a] -> get r g = VNull)
+  /\ no_match_in_batch w_ext w_s [[(w_s, VStr [48])]] = true.
+Proof. exact rex_skip_guard_satisfiable. Qed.
+
+(* eval <f> = <expr> onto any column, existing or new: the column computed from the records of the
+   batch and written at once = the record function *)
+Theorem C06_eval_meets_spec : forall (e : row -> value) f bs,
+  run (eval_cmd e f) bs = map (fun r => set_field r f (e r)) (concat bs).
+Proof. exact eval_spec. Qed.
+Print Assumptions C06_eval_meets_spec.
+
+Theorem C06_eval_chunk_invariant : forall (e : row -> value) f bs,
+  run (eval_cmd e f) bs = run (eval_cmd e f) [concat bs].
+Proof. exact eval_chunk_inv. Qed.
+Print Assumptions C06_eval_chunk_invariant.
